@@ -60,3 +60,52 @@ Print Assumptions C05_we_pages.
 Print Assumptions C05_we_crawled_pages.
 Print Assumptions C05_we_page_nodes.
 Print Assumptions C05_nonvacuous.
+
+(* ---- on the code translated from the source on every run (GenTraph.v: Traph.webentity_page_nodes_iter,
+   get_webentity_pages(_iter), get_webentity_crawled_pages(_iter); GenTrieD.v: LRUTrie.webentity_dfs_iter with its explicit
+   stack; GenTrie.v: lru_node).  For EVERY history, on any storage object holding the trie file of the state reached, and
+   any list of prefixes: the translated request answers a permutation of the SPECIFICATION's pages of those prefixes (the
+   crawled-only variant: of those marked crawled); it is refused (None = TraphException) exactly when the specification
+   refuses (a prefix that is not in the index); it never fails otherwise and leaves every byte of the file as it was. *)
+From Traph Require GenTrieFacts GenTraph GenTraphPages StoreFacts2 TraceDefs GenStorage.
+Import GenTraph GenTrieFacts GenStorage.
+Theorem C05_source_we_pages : forall d rs h, wf_rules rs -> Forall wf_op h ->
+  let s := run d rs h in let a := srun d rs h in
+  forall sg w ps, trep (TraceDefs.files_of s) sg -> Forall wf_lru ps ->
+  match py_traph_get_webentity_pages sg w ps, s_we_pages None ps a with
+  | Some (sg', x), ROk y => Permutation x y /\ pm_array sg' = pm_array sg
+  | None, RRefused => True
+  | _, _ => False
+  end.
+Proof.
+  intros d rs h H1 H2 s a sg w ps Hrep Hps.
+  pose proof (StoreFacts2.run_Inv18 d rs h H2) as Hinv. fold s in Hinv.
+  pose proof (StoreFacts2.run_root_first d rs h) as Hroot. fold s in Hroot.
+  pose proof (GenTraphPages.py_traph_get_webentity_pages_spec s Hinv Hroot sg w ps Hrep Hps) as H.
+  pose proof (C05_we_pages d rs h H1 H2 ps Hps) as Hm. cbv zeta in Hm. fold s a in Hm.
+  destruct (webentity_pages ps s) as [| |x].
+  - rewrite H. destruct (s_we_pages None ps a); first [exact Hm | destruct Hm].
+  - rewrite H. destruct (s_we_pages None ps a); first [exact Hm | destruct Hm].
+  - destruct H as (sg' & E & _ & Harr). rewrite E. destruct (s_we_pages None ps a) as [| |y]; first [split; [exact Hm|exact Harr] | exact Hm | destruct Hm].
+Qed.
+Theorem C05_source_we_crawled_pages : forall d rs h, wf_rules rs -> Forall wf_op h ->
+  let s := run d rs h in let a := srun d rs h in
+  forall sg w ps, trep (TraceDefs.files_of s) sg -> Forall wf_lru ps ->
+  match py_traph_get_webentity_crawled_pages sg w ps, s_we_pages None ps a with
+  | Some (sg', x), ROk y => Permutation x (filter (fun z => snd z) y) /\ pm_array sg' = pm_array sg
+  | None, RRefused => True
+  | _, _ => False
+  end.
+Proof.
+  intros d rs h H1 H2 s a sg w ps Hrep Hps.
+  pose proof (StoreFacts2.run_Inv18 d rs h H2) as Hinv. fold s in Hinv.
+  pose proof (StoreFacts2.run_root_first d rs h) as Hroot. fold s in Hroot.
+  pose proof (GenTraphPages.py_traph_get_webentity_crawled_pages_spec s Hinv Hroot sg w ps Hrep Hps) as H.
+  pose proof (C05_we_crawled_pages d rs h H1 H2 ps Hps) as Hm. cbv zeta in Hm. fold s a in Hm.
+  destruct (webentity_crawled_pages ps s) as [| |x].
+  - rewrite H. destruct (s_we_pages None ps a); first [exact Hm | destruct Hm].
+  - rewrite H. destruct (s_we_pages None ps a); first [exact Hm | destruct Hm].
+  - destruct H as (sg' & E & _ & Harr). rewrite E. destruct (s_we_pages None ps a) as [| |y]; first [split; [exact Hm|exact Harr] | exact Hm | destruct Hm].
+Qed.
+Print Assumptions C05_source_we_pages.
+Print Assumptions C05_source_we_crawled_pages.
